@@ -407,50 +407,6 @@ func TestVPOracleDecodeHighLevel(t *testing.T) {
 	f.report(t)
 }
 
-// The bounded-step decoder written for the symbolic executor is equivalent
-// to the plain one (random streams from every start mode, library streams).
-func TestVPOracleDecodeSym(t *testing.T) {
-	rnd := rand.New(rand.NewSource(4))
-	check := func(bits []bool, mode int) {
-		want, wantMode, wantOK := vpAzDecodeFrom(bits, mode)
-		got, n, gotMode, gotOK := vpAzDecodeSym(bits, mode, len(bits)/2+2)
-		if gotOK != wantOK || (wantOK && (!bytes.Equal(got[:n], want) || gotMode != wantMode)) {
-			t.Fatalf("mode %d bits %v:\n plain %q mode %d ok %v\n sym   %q mode %d ok %v", mode, bits, want, wantMode, wantOK, got[:n], gotMode, gotOK)
-		}
-		if wantOK && len(want) > 0 {
-			// too small a buffer is reported
-			if _, _, _, ok := vpAzDecodeSym(bits, mode, len(want)-1); ok {
-				t.Fatalf("mode %d bits %v: overflow of the output buffer not reported", mode, bits)
-			}
-			if g, n, _, ok := vpAzDecodeSym(bits, mode, len(want)); !ok || !bytes.Equal(g[:n], want) {
-				t.Fatalf("mode %d bits %v: exact buffer fails", mode, bits)
-			}
-		}
-	}
-	for iter := 0; iter < 200000; iter++ {
-		n := rnd.Intn(70)
-		if iter%50 == 0 {
-			n = rnd.Intn(400)
-		}
-		bits := make([]bool, n)
-		bias := rnd.Intn(4)
-		for i := range bits {
-			switch bias {
-			case 0:
-				bits[i] = rnd.Intn(4) == 0
-			case 1:
-				bits[i] = rnd.Intn(4) != 0
-			default:
-				bits[i] = rnd.Intn(2) == 0
-			}
-		}
-		check(bits, rnd.Intn(5))
-	}
-	for _, c := range vpAzPayloads() {
-		check(vpAzBitsOfList(highlevelEncode(c.data)), vpAzUpper)
-	}
-}
-
 // Hand-made streams for decoder features the library's encoder may not emit.
 func TestVPOracleDecodeHandmade(t *testing.T) {
 	enc := func(parts ...[2]int) []bool { // {value, width}
@@ -483,6 +439,13 @@ func TestVPOracleDecodeHandmade(t *testing.T) {
 		if ok != tc.ok || string(got) != tc.want {
 			t.Errorf("%s: got %q ok=%v, want %q ok=%v", tc.name, got, ok, tc.want, tc.ok)
 		}
+	}
+	// start in another mode, report the final mode
+	if got, m, ok := vpAzDecodeFrom(enc([2]int{5, 4}, [2]int{15, 4}, [2]int{2, 5}, [2]int{13, 4}), vpAzDigit); !ok || string(got) != "3A." || m != vpAzDigit {
+		t.Errorf("from Digit: got %q mode %d ok=%v", got, m, ok)
+	}
+	if got, m, ok := vpAzDecodeFrom(enc([2]int{6, 5}, [2]int{31, 5}, [2]int{29, 5}, [2]int{2, 5}), vpAzPunct); !ok || string(got) != "!\x01" || m != vpAzMixed {
+		t.Errorf("from Punct: got %q mode %d ok=%v", got, m, ok)
 	}
 }
 
@@ -638,7 +601,8 @@ func vpAzCheckPayload(pc vpAzCase, eccs, requests, autoOrder []int, f *vpAzFindi
 			// (a) reference reader
 			got, compact, layers, dataWords, why := vpAzReadWhy(img)
 			if why != vpAzOK {
-				f.add(fmt.Sprintf("a-read-fails-reason-%d", why), fmt.Sprintf("%s: size %d, read as compact=%v layers=%d dataWords=%d", id, len(img), compact, layers, dataWords))
+				reasons := []string{"ok", "function-patterns", "mode-message-rs", "mode-message-layers", "mode-message-word-count-exceeds-capacity", "data-rs", "data-word-all-zeros-or-ones", "highlevel-decode"}
+				f.add("a-read-fails-"+reasons[why], fmt.Sprintf("%s: size %d, read as compact=%v layers=%d dataWords=%d", id, len(img), compact, layers, dataWords))
 				stat(true, "", ecc, 0)
 				continue
 			}
